@@ -7,7 +7,8 @@ V = os.path.dirname(os.path.dirname(os.path.abspath(__file__)))
 args = [a for a in sys.argv[1:] if not a.startswith('--')]
 TESTS = '--tests' in sys.argv
 ALL = '--all-checks' in sys.argv
-patches = sorted(glob.glob(os.path.join(V, 'mutants', '*.patch')) + glob.glob(os.path.join(V, 'seeded', '*', '*', 'patch.diff')))
+patches = sorted(glob.glob(os.path.join(V, 'mutants', '*.patch')) + glob.glob(os.path.join(V, 'seeded', '*', '*', 'patch.diff'))
+                 + glob.glob(os.path.join(V, 'refactorings', '*', '*', 'patch.diff')))
 if args:
     patches = [p for p in patches if any(a in p for a in args)]
 out_path = os.path.join(V, 'mutation_matrix.json')
@@ -15,7 +16,8 @@ matrix = json.load(open(out_path)) if os.path.exists(out_path) else {}
 ids = sorted(json.loads(l)['id'] for l in open(os.path.join(V, 'properties.jsonl')))
 for p in patches:
     rel = os.path.relpath(p, V)
-    pid = re.search(r'(C\d\d)', rel).group(1)
+    mm = re.search(r'(C\d\d)', rel)
+    pid = mm.group(1) if mm else 'ALL'     # behaviour-preserving refactorings are run against every check and must stay silent
     d = tempfile.mkdtemp(prefix='pkmut-', dir='/tmp')
     w = os.path.join(d, 'w')
     try:
@@ -40,7 +42,7 @@ for p in patches:
             dm0 = subprocess.run(['/venv/bin/python', demo, '/repo'], capture_output=True, text=True, cwd=d, env=dict(os.environ, PYTHONDONTWRITEBYTECODE='1'))
             ent['demo_exit_unpatched'] = dm0.returncode
         also = [a.split('=')[1] for a in sys.argv[1:] if a.startswith('--also=')]
-        for cid in (ids if ALL else [pid] + also):
+        for cid in (ids if (ALL or pid == 'ALL') else [pid] + also):
             t0 = time.time()
             c = subprocess.run([os.path.join(V, 'check'), cid, '--tier', os.environ.get('TIER', 'quick')],
                                env=dict(os.environ, PROPKA_REPO=w, VERIF_EVIDENCE_DIR=os.path.join(d, 'evidence')), capture_output=True, text=True)
